@@ -25,13 +25,7 @@ impl<'a> StateMachine<'a> {
     //@ stub src/delta.rs StateMachine::ingest_line
     //@| ensures final(self).state == old(self).state && final(self).painter == old(self).painter && final(self).config == old(self).config,
     //@|         final(self).source == old(self).source && final(self).minus_line_counter == old(self).minus_line_counter,
-    //@ fn src/handlers/merge_conflict.rs StateMachine::handle_unterminated_merge_conflict optional=1
-    //@| requires old(self).state matches State::MergeConflict(mp, _) ==> mp_known(mp),
-    //@| ensures sm_frame(final(self), old(self)),
-    //@|         r.is_ok() && old(self).state is MergeConflict ==> mc_empty(&final(self).painter.merge_conflict_lines) && !(final(self).state is MergeConflict),  // @C01:at.the.end.of.the.input.no.conflict.line.is.left.behind
-    //@|         !(old(self).state is MergeConflict) ==> final(self).state == old(self).state && final(self).painter == old(self).painter,
-    //@|         r.is_ok() ==> (final(self).painter.line_numbers_data is Some) == (old(self).painter.line_numbers_data is Some),
-    //@|         r.is_ok() ==> (old(self).state matches State::MergeConflict(mp, _) ==> final(self).state == State::HunkZero(DiffType::Combined(mp, InMergeConflict::No), None)),
+    //@ fn src/handlers/merge_conflict.rs StateMachine::handle_unterminated_merge_conflict optional=1 spec=merge.handle_unterminated
 
     // the statements of `consume` after its loop: what happens when the input ends
     //@ region src/delta.rs StateMachine::consume
